@@ -31,7 +31,7 @@ class Ctx:
         want = source_fns("incremental.rs") | {"create_local_dirs", "collect_dirs", "join_handles", "build_plan", "set_local_mtime"}
 
         def keep(n):
-            return (n in want or n.startswith(tuple(w + "::" for w in want)) or n.startswith("incremental::")) and not n.startswith(("run_remote", "apply_remote"))
+            return (n in want or n.startswith(tuple(w + "::" for w in want)) or n.startswith("incremental::")) and not n.startswith("apply_remote")
         self.mir, self.mir_path, self.dump_s = env.load("bin", keep)
         self.idx = env.impl_index(self.mir)
         self.enums = env.source_enums()
@@ -363,11 +363,19 @@ class PullCtx:
         self.enums = env.source_enums()
 
 
-def run_local_obligation(ctx, R, prover, U):
+def run_local_obligation(ctx, R, prover, U, direction="local"):
+    """direction: 'local' (run_local) | 'push' | 'pull' (run_remote with Dir::Push / Dir::Pull)"""
     ex = ctx.ex(K=U + 4)
     _tokio_fs(ex)
     stdmodels.install_collections(ex, U, 2 * U + 2)
-    SRC, DST = z3.Int("SRC_ROOT"), z3.Int("DST_ROOT")
+    remote = direction != "local"
+    LOCAL_ROOT, REMOTE_ROOT, HOST = z3.Int("LOCAL_ROOT"), z3.Int("REMOTE_ROOT"), z3.Int("HOST")
+    if remote:
+        # the source / destination of a delivery are (root, rel) pairs: local = JoinedId(LOCAL_ROOT, rel), remote = RemoteFile(REMOTE_ROOT, rel)
+        SRC, DST = (LOCAL_ROOT, REMOTE_ROOT) if direction == "push" else (REMOTE_ROOT, LOCAL_ROOT)
+        ex.assumes.append(LOCAL_ROOT != REMOTE_ROOT)
+    else:
+        SRC, DST = z3.Int("SRC_ROOT"), z3.Int("DST_ROOT")
     dry, delete, verbose = ex.fresh_bool("dry_run"), ex.fresh_bool("delete"), ex.fresh_bool("verbose")
     src_p = [ex.fresh_bool("src_has%d" % u) for u in range(U)]
     src_mt = [ex.fresh_int("src_mtime%d" % u, ty="i64") for u in range(U)]
@@ -398,8 +406,47 @@ def run_local_obligation(ctx, R, prover, U):
         scans[0] += 1
         ok = ex_.fresh_bool("scan_ok")
         rec(st, "scan", root=fsmodels.path_term(ex_, st, args[0]), ok=ok)
-        m = src_map if scans[0] == 1 else dst_map
+        if remote:
+            m = src_map if direction == "push" else dst_map        # the local tree is the source of a push, the destination of a pull
+        else:
+            m = src_map if scans[0] == 1 else dst_map
         return VEnum("Result", simp(z3.If(ok, I(0), I(1))), {0: [m], 1: [VOpaque("scan error")]})
+
+    def s_scan_remote(ex_, st, args, dest_ty, func, where):
+        ok = ex_.fresh_bool("remote_scan_ok")
+        rec(st, "scan", root=fsmodels.text_term(ex_, st, args[1]), host=fsmodels.text_term(ex_, st, args[0]), ok=ok)
+        m = dst_map if direction == "push" else src_map
+        return asyncmodels.ready(VEnum("Result", simp(z3.If(ok, I(0), I(1))), {0: [m], 1: [VOpaque("scan error")]}))
+
+    def s_remote_dirs(ex_, st, args, dest_ty, func, where):
+        ok = ex_.fresh_bool("dirs_ok")
+        rec(st, "create_local_dirs", root=fsmodels.text_term(ex_, st, args[1]), host=fsmodels.text_term(ex_, st, args[0]), ok=ok)
+        return asyncmodels.ready(VEnum("Result", simp(z3.If(ok, I(0), I(1))), {0: [UNIT], 1: [VOpaque("error")]}))
+
+    def s_push_file(ex_, st, args, dest_ty, func, where):      # transfer_file_to_remote(local_file, host, remote_file, mtime)
+        ok = ex_.fresh_bool("deliver_ok")
+        rec(st, "deliver", src=fsmodels._deep(ex_, st, args[0]), dst=fsmodels._deep(ex_, st, args[2]), host=fsmodels.text_term(ex_, st, args[1]), mtime=fsmodels._deep(ex_, st, args[3]), ok=ok)
+        return asyncmodels.ready(VEnum("Result", simp(z3.If(ok, I(0), I(1))), {0: [VInt(ex_.fresh_int("size", ty="u64"), "u64")], 1: [VOpaque("error text")]}))
+
+    def s_pull_file(ex_, st, args, dest_ty, func, where):      # deliver_pull(host, remote_file, local_dest, mtime)
+        ok = ex_.fresh_bool("deliver_ok")
+        rec(st, "deliver", src=fsmodels._deep(ex_, st, args[1]), dst=fsmodels._deep(ex_, st, args[2]), host=fsmodels.text_term(ex_, st, args[0]), mtime=fsmodels._deep(ex_, st, args[3]), ok=ok)
+        return asyncmodels.ready(VEnum("Result", simp(z3.If(ok, I(0), I(1))), {0: [VInt(ex_.fresh_int("size", ty="u64"), "u64")], 1: [VOpaque("error text")]}))
+
+    def s_remote_deletes(ex_, st, args, dest_ty, func, where):
+        # apply_remote_deletes(dir, host, remote_root, local_root, dels, progress): CONTRACT (decided under push/rm-list and
+        # pull/remove-stale): the listed paths are removed under the destination root; any removal that does not succeed is
+        # recorded as a failure on the progress counters
+        lst = fsmodels._deep(ex_, st, args[4])
+        okd = ex_.fresh_bool("deletes_ok")
+        same = isinstance(lst, VSeq) and str(lst.arr) == "DELETE" and lst.len is nd
+        rec(st, "remote_deletes", dir=fsmodels._deep(ex_, st, args[0]).discr, host=fsmodels.text_term(ex_, st, args[1]), rroot=fsmodels.text_term(ex_, st, args[2]),
+            lroot=fsmodels.path_term(ex_, st, args[3]), list_given=z3.BoolVal(bool(same)), ok=okd)
+        g0 = st.guard
+        st.guard = simp(z3.And(g0, z3.Not(okd)))
+        rec(st, "record_err")
+        st.guard = g0
+        return asyncmodels.ready(UNIT)
 
     def s_plan(ex_, st, args, dest_ty, func, where):
         exl = fsmodels._deep(ex_, st, args[2])
@@ -454,6 +501,7 @@ def run_local_obligation(ctx, R, prover, U):
     S = ex.summaries
     S["discover_local_with_meta"], S["build_plan"], S["print_plan"], S["create_local_dirs"] = s_scan, s_plan, s_unit, s_dirs
     S["deliver_local"], S["incremental::report"], S["report"], S["join_handles"] = s_deliver, s_report, s_report, s_ready_unit
+    S["discover_remote_with_meta"], S["create_remote_dirs"], S["transfer_file_to_remote"], S["deliver_pull"], S["apply_remote_deletes"] = s_scan_remote, s_remote_dirs, s_push_file, s_pull_file, s_remote_deletes
     S["collect_dirs"] = lambda ex_, st, args, dest_ty, func, where: VSeq(z3.Array("DIRS", z3.IntSort(), z3.IntSort()), I(0), ex_.fresh_int("n_dirs", lo=0, hi=U), "usize")
 
     def join_id(ex_, st, args, dest_ty, func, where):
@@ -468,6 +516,35 @@ def run_local_obligation(ctx, R, prover, U):
 
     def ident(ex_, st, args, dest_ty, func, where):
         return fsmodels._deep(ex_, st, args[0])
+
+    def remote_args(ex_, st, args, dest_ty, func, where):
+        """format_args!("{}/{}", remote_root, rel.display()): recognised by its decoded template; anything else is opaque text"""
+        from mirsmt import textmodels
+        tv = fsmodels._deep(ex_, st, args[0])
+        a = fsmodels._deep(ex_, st, args[1]) if len(args) > 1 else None
+        try:
+            pieces = textmodels.decode_template([simp(x.t).as_long() for x in tv.f])
+        except Exception:
+            pieces = None
+        if pieces == [("arg", 0), ("lit", b"/"), ("arg", 1)] and isinstance(a, VStruct) and len(a.f) == 2:
+            v0, v1 = (x.f[1] if isinstance(x, VStruct) and x.name == "FmtArg2" else None for x in a.f)
+            if v0 is not None and isinstance(v1, VInt):
+                return VStruct("FmtArgs", [VOpaque(("remote-file", fsmodels.text_term(ex_, st, v0), v1.t))])
+        return VStruct("FmtArgs", [VOpaque(("text", where))])
+
+    def fmt_arg2(ex_, st, args, dest_ty, func, where):
+        return VStruct("FmtArg2", [VOpaque("arg"), fsmodels._deep(ex_, st, args[0])])
+
+    def fmt_format(ex_, st, args, dest_ty, func, where):
+        a = fsmodels._deep(ex_, st, args[0])
+        w_ = a.f[0].what if isinstance(a, VStruct) and a.name == "FmtArgs" and isinstance(a.f[0], VOpaque) else None
+        if isinstance(w_, tuple) and w_[0] == "remote-file":
+            return VStruct("RemoteFile", [VInt(w_[1], "usize"), VInt(w_[2], "usize")])
+        return strv(lit_id("formatted:" + where))
+
+    def display_id(ex_, st, args, dest_ty, func, where):
+        v = fsmodels._deep(ex_, st, args[0])
+        return v if isinstance(v, VInt) else VOpaque("display")
 
     def identref(ex_, st, args, dest_ty, func, where):
         return VRef("val", val=fsmodels._deep(ex_, st, args[0]))
@@ -486,7 +563,13 @@ def run_local_obligation(ctx, R, prover, U):
         items = [VStruct("entry", [VBool(simp(z3.And(e.f[0].t, ex_.fresh_bool("retained")))), e.f[1]]) for e in m.f[0].items]
         ex_.store_ref(st, args[0], stdmodels.mk_map(items))
         return UNIT
-    ex.models = [(re.compile(r"^<&Vec<PathBuf> as IntoIterator>::into_iter$"), into_iter, "<&Vec<PathBuf>>::into_iter"),
+    remote_models = [(re.compile(r"^Path::display$"), display_id, "Path::display (a plan entry displays as itself)"),
+                     (re.compile(r"^core::fmt::rt::Argument::<'_>::new_display::<"), fmt_arg2, "fmt::Argument (keeps its value)"),
+                     (re.compile(r"^Arguments::<'_>::new::<"), remote_args, "format_args! (the `<root>/<rel>` template is recognised by its decoded template)"),
+                     (re.compile(r"^(std::fmt::|alloc::fmt::)?format$"), fmt_format, "format! (`<root>/<rel>` -> RemoteFile(root, rel); anything else opaque text)"),
+                     (re.compile(r"^<(std::string::)?String as Deref>::deref$|^<str as ToString>::to_string$|^<(std::string::)?String as Clone>::clone$"), identref, "String views / copies (same value)"),
+                     ] if remote else []
+    ex.models = remote_models + [(re.compile(r"^<&Vec<PathBuf> as IntoIterator>::into_iter$"), into_iter, "<&Vec<PathBuf>>::into_iter"),
                  (re.compile(r"^BTreeMap::<PathBuf, FileMeta>::retain::<"), map_retain, "BTreeMap::retain (any subset survives)"),
                  (re.compile(r"^Path::join::<&PathBuf>$"), join_id, "Path::join(root, rel) (recorded)"),
                  (re.compile(r"^std::fs::remove_file::<.*>$"), rm, "fs::remove_file (recorded)"),
@@ -505,11 +588,27 @@ def run_local_obligation(ctx, R, prover, U):
     opts = VStruct("SyncOptions", [VInt(ex.fresh_int("jobs", lo=1, hi=64), "usize"), VBool(verbose), VBool(dry), VBool(delete), VList([VOpaque("pattern")], EXC_LEN, "EXCLUDES")])
     # field order of SyncOptions from the source
     st = State()
-    st.frames[0] = {"co": VEnum("Coroutine", I(0), {-1: [VRef("val", val=pathv(SRC)), VRef("val", val=pathv(DST)), VRef("val", val=opts)]})}
-    body = asyncmodels.find_body(ex, "async fn body of incremental::run_local()")
-    fn = ex.find_fn(body) if body else None
-    if fn is None:
-        raise Inconclusive("no MIR body for run_local's state machine")
+    if remote:
+        from . import shellcmd
+        body = asyncmodels.find_body(ex, "async fn body of incremental::run_remote()")
+        fn = ex.find_fn(body) if body else None
+        if fn is None:
+            raise Inconclusive("no MIR body for run_remote's state machine")
+        dirs_enum = ctx.enums.get("Dir") or {}
+        if not {"Push", "Pull"} <= set(dirs_enum):
+            raise Inconclusive("enum Dir { Push, Pull } not found")
+        vals = {"dir": VEnum("Dir", I(dirs_enum["Push" if direction == "push" else "Pull"]), {}), "host": VRef("val", val=strv(HOST)), "remote_root": VRef("val", val=strv(REMOTE_ROOT)),
+                "local_root": VRef("val", val=pathv(LOCAL_ROOT)), "opts": VRef("val", val=opts)}
+        caps = shellcmd.captures(ctx, fn)
+        if set(caps.values()) != set(vals):
+            raise Inconclusive("run_remote captures %r" % sorted(caps.values()))
+        st.frames[0] = {"co": VEnum("Coroutine", I(0), {-1: [vals[caps[i]] for i in sorted(caps)]})}
+    else:
+        st.frames[0] = {"co": VEnum("Coroutine", I(0), {-1: [VRef("val", val=pathv(SRC)), VRef("val", val=pathv(DST)), VRef("val", val=opts)]})}
+        body = asyncmodels.find_body(ex, "async fn body of incremental::run_local()")
+        fn = ex.find_fn(body) if body else None
+        if fn is None:
+            raise Inconclusive("no MIR body for run_local's state machine")
     poll = ex.exec_fn(fn, [VStruct("Pin", [VRef("place", 0, "co")]), VOpaque("Context")], st)
     if poll is None or 0 not in poll.pay:
         raise Inconclusive("run_local never becomes Ready")
@@ -535,34 +634,82 @@ def run_local_obligation(ctx, R, prover, U):
             rel = z3.Select(T, i)
             mt = c["mtime"]
             want_mt = z3.Or(*[z3.And(rel == u, mt.discr == 1, (mt.pay[1][0].t if 1 in mt.pay else I(0)) == src_mt[u]) for u in range(U)])
-            conds.append(z3.Implies(g, z3.And(i < nt, c["src"].f[0].t == SRC, c["src"].f[1].t == rel, c["dst"].f[0].t == DST, c["dst"].f[1].t == rel, want_mt)))
+            shape = z3.BoolVal(True)
+            if remote:
+                lf, rf = (c["src"], c["dst"]) if direction == "push" else (c["dst"], c["src"])
+                shape = z3.And(z3.BoolVal(isinstance(lf, VStruct) and lf.name == "JoinedId" and isinstance(rf, VStruct) and rf.name == "RemoteFile"), c["host"] == HOST)
+                if z3.is_false(simp(shape)):
+                    conds.append(z3.Not(g))
+                    continue
+            conds.append(z3.Implies(g, z3.And(shape, i < nt, c["src"].f[0].t == SRC, c["src"].f[1].t == rel, c["dst"].f[0].t == DST, c["dst"].f[1].t == rel, want_mt)))
         for g, c in nth(rms, i):
             rel = z3.Select(D, i)
             conds.append(z3.Implies(g, z3.And(i < nd, c["target"].f[0].t == DST, c["target"].f[1].t == rel)))
     n_del = sum([z3.If(c["guard"], 1, 0) for c in dels]) if dels else I(0)
     n_rm = sum([z3.If(c["guard"], 1, 0) for c in rms]) if rms else I(0)
+    rdel = [c for c in calls if c["call"] == "remote_deletes"]
+    if remote:
+        # the removals of a push / pull are ONE call of apply_remote_deletes with the plan's delete list (its own loop / remote command
+        # is decided separately): count it as "all nd removals requested"
+        n_rm = simp(z3.If(_any(c["guard"] for c in rdel), nd, 0))
     done = z3.And(poll.discr == 0, _any(c["guard"] for c in calls if c["call"] == "report"))
     run_ok = z3.And(poll.discr == 0, res.discr == 0)
     NOTFOUND = fsmodels.ERRKIND.get("NotFound", 1)
     goals = {
         "exit-0-after-a-real-run-means-every-delivery-succeeded-and-every-planned-removal-succeeded-(or-the-file-was-already-gone)": z3.Implies(
             z3.And(run_ok, done), z3.And(_all(z3.Implies(d_["guard"], d_["ok"]) for d_ in dels),
-                                        _all(z3.Implies(r_["guard"], z3.Or(r_["ok"], r_.get("errkind", I(-1)) == NOTFOUND)) for r_ in rms))),
+                                        _all(z3.Implies(r_["guard"], z3.Or(r_["ok"], r_.get("errkind", I(-1)) == NOTFOUND)) for r_ in rms),
+                                        _all(z3.Implies(r_["guard"], r_["ok"]) for r_ in rdel))),
         "the-i-th-delivery-is-the-plan's-i-th-transfer:-src/rel->dst/rel-with-the-source's-mtime;-the-i-th-removal-is-the-plan's-i-th-delete-under-the-destination": _all(conds),
         "a-run-that-reaches-its-report-delivered-every-transfer-entry-and-removed-every-delete-entry,-once": z3.Implies(done, z3.And(n_del == nt, n_rm == nd)),
         "never-more-deliveries-or-removals-than-the-plan-lists": z3.And(n_del <= nt, n_rm <= nd),
-        "removals-come-after-every-delivery": _all(z3.Implies(z3.And(r_["guard"], d_["guard"]), z3.BoolVal(d_["seq"] < r_["seq"])) for r_ in rms for d_ in dels),
+        "removals-come-after-every-delivery": _all(z3.Implies(z3.And(r_["guard"], d_["guard"]), z3.BoolVal(d_["seq"] < r_["seq"])) for r_ in rms + rdel for d_ in dels),
         "a-dry-run-requests-nothing-of-the-destination": z3.Implies(dry, z3.And(n_del == 0, n_rm == 0, _all(z3.Not(c["guard"]) for c in dirs))),
         "an-empty-source-without---delete-requests-nothing": z3.Implies(z3.And(src_empty, z3.Not(delete)), z3.And(n_del == 0, n_rm == 0, _all(z3.Not(c["guard"]) for c in dirs), _all(z3.Not(p["guard"]) for p in plans))),
         "build_plan-is-asked-with-the---delete-flag,-the-exclude-list-and-the-scanned-source-as-given": _all(
             z3.Implies(p["guard"], z3.And(p["with_delete"] == delete, p["excludes_given"], p["source_given"])) for p in plans),
         "directories-are-created-under-the-destination-only": _all(z3.Implies(c["guard"], c["root"] == DST) for c in dirs),
     }
-    prover.prove(ex, goals, "C04/run_local",
+    if remote:
+        dcode = ctx.enums["Dir"]["Push" if direction == "push" else "Pull"]
+        goals["the-plan's-delete-list-is-handed-to-apply_remote_deletes-once,-with-this-direction,-host-and-roots,-only-when-it-is-not-empty"] = z3.And(
+            _all(z3.Implies(c["guard"], z3.And(c["list_given"], c["dir"] == dcode, c["host"] == HOST, c["rroot"] == REMOTE_ROOT, c["lroot"] == LOCAL_ROOT, nd > 0)) for c in rdel),
+            _all(z3.Not(z3.And(x["guard"], y["guard"])) for i_, x in enumerate(rdel) for y in rdel[i_ + 1:]),
+            z3.BoolVal(not rms))
+        goals["both-trees-are-scanned-where-they-are:-the-local-root-and-host:remote-root"] = _all(
+            z3.Implies(c["guard"], z3.Or(z3.And(z3.BoolVal("host" not in c), c["root"] == LOCAL_ROOT), z3.And(z3.BoolVal("host" in c), c["root"] == REMOTE_ROOT, c.get("host", HOST) == HOST)))
+            for c in calls if c["call"] == "scan")
+    prover.prove(ex, goals, "C04/run_local" if not remote else "C04/run_remote[%s]" % direction,
                  "universe of %d paths; source listing, flags (dry_run, delete, verbose, jobs) symbolic; the plan is ANY SyncPlan over the universe whose transfer entries are source "
-                 "paths (build_plan: C19); scans, mkdir, deliveries, removals and the report may fail; tasks run at their spawn point (one schedule)" % U,
-                 ["run_local (state machine)", "run_local::{async block} (spawned task)"], native_witness(R, "C04"),
+                 "paths (build_plan: C19); scans, mkdir, deliveries, removals and the report may fail; tasks run at their spawn point (one schedule)%s" % (
+                     U, "; the transport functions, create_remote_dirs and apply_remote_deletes are summaries by their contracts (decided separately)" if remote else ""),
+                 ["run_local (state machine)", "run_local::{async block} (spawned task)"] if not remote else ["run_remote (state machine, Dir::%s)" % direction.capitalize(), "run_remote::{async block} (spawned task)", "report"],
+                 native_witness(R, "C04") if not remote else remote_witness(R, "C04", direction),
                  covers={"deliver-reachable": n_del > 0, "remove-reachable": n_rm > 0})
+
+
+def remote_witness(R, pid, direction):
+    """the real binary in the given ssh direction through the stand-in: the end-to-end scenarios and the undeletable stale file"""
+    def w(name, model, neg):
+        T = 1_700_000_000
+        src = {"a": ("one", T), "d/b": ("two", T + 5), "same": ("same", T + 9)}
+        dst = {"a": ("ONE", T), "same": ("same", T + 9), "stale": ("old", T), "d/old": ("o", T)}
+        for prof in ("dev", "release"):
+            for delete in (True, False):
+                for dry in (False, True):
+                    c = {direction: True, "src": src, "dst": dst, "delete": delete, "dry": dry}
+                    r = native_case(c, prof)
+                    d = judge_native(c, r)
+                    if d:
+                        c = dict(c)
+                        c["deviation"] = d
+                        return {"confirmed": True, "replay_path": R.save_replay("%s/native-%s" % (pid, direction), {"fn": "copia_sync_local", **c}), "key": "%s/native-%s/%s" % (pid, direction, name[:40]),
+                                "detail": "the real `copia sync -r` (%s through the stand-in for ssh, %s, delete=%s, dry=%s): %s" % (direction, prof, delete, dry, d)}
+        u = undeletable_witness(R, pid, (direction,))
+        if u["confirmed"]:
+            return u
+        return {"confirmed": False, "detail": "the real %s behaves as specified on the end-to-end scenarios; %s" % (direction, u["detail"])}
+    return w
 
 
 # ----------------------------------------------------------------- native end-to-end: the real `copia sync -r`
@@ -957,7 +1104,9 @@ def native_validation(R):
 def run(R, tier, seed):
     R.trusted += ["rustc nightly MIR dump of the copia binary crate", "mirsmt encoder + std models + the file-system effect recorder", "z3 5.1 (deciding), cvc5 / z3 4.8.12 (re-deciding)",
                   "native oracle: the real copia binary (`copia sync -r`) built from /repo"]
-    R.assumptions += ["LOCAL -> LOCAL only; ONE schedule (futures complete at their await, a spawned task runs at its spawn point): the job count and task interleavings are NOT explored",
+    R.assumptions += ["run_remote (push and pull orchestration) is executed from MIR like run_local, with the transport functions, create_remote_dirs and apply_remote_deletes as summaries "
+                      "by their contracts; those are decided separately (command lines, push stream, xargs lists, pull removals, pull transport, deliver_pull)",
+                      "orchestration obligations: ONE schedule (futures complete at their await, a spawned task runs at its spawn point): the job count and task interleavings are NOT explored",
                       "build_plan is an arbitrary SyncPlan here (it is decided under C19); deliver_local is decided on its own and summarised in the orchestration",
                       "push / pull over ssh: the COMMAND LINES handed to ssh by transfer_file_to_remote, transfer_file_from_remote and discover_remote_with_meta are decided as text "
                       "(obligations/shellcmd.py: remote path of 0..2 (quick) / 0..3 (thorough) characters, each any code point; bash's reading of $'..' is a contract validated natively), "
@@ -967,7 +1116,9 @@ def run(R, tier, seed):
                       "NOT covered: run_push / run_pull orchestration, what the remote commands themselves do, crash points (C09)"]
     ctx = Ctx()
     prover = Prover(R, tier)
-    for what, f in (("deliver_local", lambda: deliver_obligation(ctx, R, prover)), ("run_local", lambda: run_local_obligation(ctx, R, prover, 2 if tier == "quick" else 3))):
+    U_ = 2 if tier == "quick" else 3
+    for what, f in (("deliver_local", lambda: deliver_obligation(ctx, R, prover)), ("run_local", lambda: run_local_obligation(ctx, R, prover, U_)),
+                    ("run_remote[push]", lambda: run_local_obligation(ctx, R, prover, U_, "push")), ("run_remote[pull]", lambda: run_local_obligation(ctx, R, prover, U_, "pull"))):
         try:
             f()
         except (Inconclusive, Unsupported) as e:
@@ -1004,6 +1155,10 @@ def remote_commands(R, tier, pid, which):
                 shellcmd.list_pipe_obligation(sctx, R, prover, pid, lw, 2, 2)
             except (Inconclusive, Unsupported) as e:
                 R.add("%s/push/%s-list/encoding" % (pid, lw), "inconclusive", detail=str(e)[:400])
+        try:
+            shellcmd.pull_deletes_obligation(sctx, R, prover, pid)
+        except (Inconclusive, Unsupported) as e:
+            R.add("%s/pull/remove-stale/encoding" % pid, "inconclusive", detail=str(e)[:400])
         try:
             shellcmd.list_native_validation(R, pid)
         except (Inconclusive, subprocess.TimeoutExpired) as e:
